@@ -151,8 +151,10 @@ for line in sys.stdin:
 class Interpreter:
     """One long-lived interpreter in which generator.__main__.main is called once per run."""
 
-    def __init__(self, hashseed):
+    def __init__(self, hashseed, optimize=False):
         env = dict(os.environ, PYTHONPATH=common.REPO, PYTHONHASHSEED=hashseed)
+        if optimize:
+            env["PYTHONOPTIMIZE"] = "1"
         self.p = subprocess.Popen([common.PY, "-c", INPROC], cwd=common.REPO, env=env, stdin=subprocess.PIPE, stdout=subprocess.PIPE,
                                   stderr=subprocess.DEVNULL, text=True)
 
@@ -190,8 +192,9 @@ def run_history(args):
         for a in hist:
             if a["a"] == "OneInterpreter":
                 first = next((x for x in hist if x["a"] == "Run"), None)
-                hs0 = first["seed"] if first and first["seed"] != "r" else str(rnd.randint(2, 4000000))
-                interp = Interpreter(hs0)             # the hash seed is a property of the process: the first run's
+                hs0 = first["seed"] if first and first["seed"] not in ("r", "O") else str(rnd.randint(2, 4000000))
+                # the hash seed and -O are properties of the process: the first run's
+                interp = Interpreter(hs0, optimize=bool(first and first["seed"] == "O"))
                 events.append({"e": "OneInterpreter", "plugin": plugin})
                 continue
             if a["a"] == "Stale":
@@ -211,7 +214,7 @@ def run_history(args):
                 continue
             model = models[a["model"] if a["valid"] else "bad"]
             mlist = model if isinstance(model, list) else [model]
-            hs = a["seed"] if a["seed"] != "r" else str(rnd.randint(2, 4000000))
+            hs = a["seed"] if a["seed"] not in ("r", "O") else str(rnd.randint(2, 4000000))
             # "nothing written" only matters for runs that must be refused
             before = other_digest(plugin, out, test) if not a["valid"] else ""
             argv = ["--model"] + mlist + ["--plugin", plugin, "--output-dir", out, "--test-dir", test]
@@ -219,6 +222,8 @@ def run_history(args):
                 rcode = interp.run(argv)
             else:
                 env = dict(os.environ, PYTHONPATH=common.REPO, PYTHONHASHSEED=hs)
+                if a["seed"] == "O":
+                    env["PYTHONOPTIMIZE"] = "1"       # another process: python -O (and a random hash seed)
                 p = subprocess.run([common.PY, "-m", "generator"] + argv,
                                    cwd=common.REPO, env=env, stdout=subprocess.DEVNULL, stderr=subprocess.DEVNULL, timeout=1800)
                 rcode = p.returncode
@@ -406,11 +411,15 @@ def check_c05(tier):
     work = common.scratch("c05-")
     try:
         events, labels = [], []
-        for plugin in ("python", "rust"):
-            out, test = os.path.join(work, plugin + "-out"), os.path.join(work, plugin + "-test")
+        # the generator process as the build runs it, and with another hash seed under python -O (assert statements gone)
+        for plugin, extra in (("python", {}), ("rust", {}), ("python", {"PYTHONOPTIMIZE": "1", "PYTHONHASHSEED": str(common.seed() + 2)}),
+                              ("rust", {"PYTHONOPTIMIZE": "1", "PYTHONHASHSEED": str(common.seed() + 2)})):
+            tag = plugin + ("-O" if extra else "")
+            out, test = os.path.join(work, tag + "-out"), os.path.join(work, tag + "-test")
             os.makedirs(out)
             shutil.copytree(os.path.join(common.REPO, "tests", "rust"), test, ignore=shutil.ignore_patterns("target"))
             env = dict(os.environ, PYTHONPATH=common.REPO, PYTHONHASHSEED=str(common.seed()))
+            env.update(extra)
             p = subprocess.run([common.PY, "-m", "generator", "--plugin", plugin, "--output-dir", out, "--test-dir", test],
                                cwd=common.REPO, env=env, stdout=subprocess.PIPE, stderr=subprocess.STDOUT, timeout=600)
             if p.returncode != 0:
@@ -420,9 +429,9 @@ def check_c05(tier):
                 g, gl = py_items(os.path.join(out, "lsprotocol", "types.py"))
                 c, cl = py_items(os.path.join(common.REPO, "packages", "python", "lsprotocol", "types.py"))
             else:
-                g, gl = rust_items(os.path.join(out, "lsprotocol", "src", "lib.rs"), work, "gen")
+                g, gl = rust_items(os.path.join(out, "lsprotocol", "src", "lib.rs"), work, "gen" + ("O" if extra else ""))
                 c, cl = rust_items(os.path.join(common.REPO, "packages", "rust", "lsprotocol", "src", "lib.rs"), work, "committed")
-            events.append({"e": "FixedPoint", "plugin": plugin, "gen": g, "committed": c})
+            events.append({"e": "FixedPoint", "plugin": plugin, "interpreter": "-O" if extra else "plain", "gen": g, "committed": c})
             labels.append((gl, cl))
         tp = os.path.join(work, "trace.json")
         json.dump([events], open(tp, "w"))
@@ -436,13 +445,13 @@ def check_c05(tier):
             gl, cl = labels[f["l"] - 1]
             at = f["at"]
             disagreements += 1
-            rep.violation({"clause": "F_differs", "plugin": ev["plugin"]},
+            rep.violation({"clause": "F_differs", "plugin": ev["plugin"]} if ev["interpreter"] == "plain" else {"clause": "F_differs", "plugin": ev["plugin"], "interpreter": ev["interpreter"]},
                           {"first_differing_item": at, "generated": gl[at - 1] if 0 < at <= len(gl) else "<none>",
                            "committed": cl[at - 1] if 0 < at <= len(cl) else "<none>", "items_generated": len(gl), "items_committed": len(cl)})
     finally:
         shutil.rmtree(work, ignore_errors=True)
     rep.coverage.update({"programs": len(events), "disagreements_checked": sum(len(e["gen"]) + len(e["committed"]) for e in events),
-                         "items": {e["plugin"]: len(e["committed"]) for e in events},
+                         "items": {e["plugin"]: len(e["committed"]) for e in events}, "interpreter_configurations": ["plain", "-O with another hash seed"],
                          "samples": [{"plugin": e["plugin"], "first_items": labels[i][1][:3]} for i, e in enumerate(events)],
                          "explanation": "python and rust plugins run from the working tree on the committed model; types.py compared statement by statement on the AST with docstring whitespace collapsed, lib.rs block by block after rustfmt on both; the item-hash sequences are compared by GenPipeline.tla (FixedPoint event, first differing item reported)"})
     rep.assumptions = ["normal forms: Python ast.dump with whitespace-collapsed string statements; rustfmt --edition 2021 for Rust (ruff is not installed)"]
